@@ -290,7 +290,9 @@ def w2(e: Engine, rep: Report):
 # ---------------------------------------------------------------------- W3
 def w3(e: Engine, rep: Report):
     ctx = e.method_ctx(IOC, 'recv_reply')
-    g = e.build(ctx, raises=lambda b, n, r: (
+    g = e.build(ctx, inline=e.inline_same_self(
+        deny=['buffered_recv', 'raw_recv']), max_depth=3,
+        raises=lambda b, n, r: (
         {'builtins.UnicodeDecodeError'} if n.kind == 'call' and
         e.call_name(n) == 'decode' else set()))
     fx = e.facts(g)
@@ -319,9 +321,29 @@ def w3(e: Engine, rep: Report):
               reason='raise under `code != match.group(...)`')
     # (b) a complete line that is no reply line
     rep.evaluations += 1
-    other = [n for n in bad if any(
-        p and k.startswith('match') for p, k in (fx.at(n) or ())) and
-        n not in conf]
+    # locals that hold the result of matching a whole-line pattern (a
+    # module-level compiled pattern with no code group of digits)
+    line_vars = set()
+    for s2 in g.of_kind('stmt'):
+        v = s2.ast.value if isinstance(s2.ast, ast.Assign) else None
+        if isinstance(v, ast.Call) and isinstance(v.func, ast.Attribute) and \
+                v.func.attr == 'match' and \
+                isinstance(v.func.value, ast.Name) and \
+                isinstance(s2.ast.targets[0], ast.Name):
+            mp = rx.module_pattern(e, s2.frame.ctx.func.module.name,
+                                   v.func.value.id)
+            if mp is None:
+                continue
+            src = mp[0] if isinstance(mp[0], str) else mp[0].decode('latin1')
+            if '\\d' not in src and '[0-9]' not in src:
+                line_vars.add(path_of(s2.ast.targets[0], s2.frame))
+
+    def line_matched(st):
+        return any((p and k in line_vars) or (
+            not p and k.endswith(' is None') and k[:-8] in line_vars)
+            for p, k in st)
+    other = [n for n in bad if line_matched(fx.at(n) or ()) and
+             n not in conf]
     rep.check(bool(other), 'W3', where,
               'a complete line that is not a reply line raises BadReply',
               'no `raise BadReply` on the path where the reply pattern '
